@@ -144,14 +144,14 @@ RULE = ("C11 generator: regimes <2^64 / <=2^1024 / ~2^1100 / ~2^2100, perfect po
         "degrees {1,2,3,4,5,7,10,64,65,1000,u32::MAX}, negatives, n=0 | non-trivial: operand >= 2^64 and degree below its bit length (Newton iteration runs)")
 
 # ---- in-Coq cross-check of the extraction -------------------------------------------------
-COQ_IMPORTS = "Base X86 AddSub PgrLoop Pow Gcd SpecRoots Roots Div Extracted"
+COQ_IMPORTS = "Base X86 AddSub PgrLoop Pow Gcd SpecRoots Roots Div Mul Extracted"
 
 def coq_term(case, model):
     toks = case.split(" ")
     op, a = toks[0], toks[1:]
     if len(case) > 120 or len(model) > 120:
         return None
-    big = "spec_bmul (Div.udivrem Extracted.div) addsub"
+    big = "(Mul.umul Extracted.mul) (Div.udivrem Extracted.div) addsub"
     if op == "u.nth_root":
         return "unth_root %s pgr_pow pgr_roots guess_nostd %s %s" % (big, coq_list(a[0]), a[1][2:]), coq_result(model)
     if op == "u.sqrt":
